@@ -235,10 +235,17 @@ func (fe *formEval) eval(v ssa.Value) poly {
 	fe.memo[v] = atomPoly(fe.atomKeyOf(v))
 	p := fe.eval1(v)
 	fe.memo[v] = p
-	for k := range p {
-		if k != "" && !strings.Contains(k, monoSep) {
-			if _, ok := fe.atoms[k]; !ok {
-				fe.atoms[k] = v
+	// remember which value an atom stands for (only when v IS that atom)
+	if len(p) == 1 {
+		for k, cf := range p {
+			if cf == 1 && k != "" && !strings.Contains(k, monoSep) {
+				if _, ok := fe.atoms[k]; !ok {
+					fe.atoms[k] = v
+				} else if _, isConv := fe.atoms[k].(*ssa.Convert); isConv {
+					if _, isConv2 := v.(*ssa.Convert); !isConv2 {
+						fe.atoms[k] = v
+					}
+				}
 			}
 		}
 	}
